@@ -359,12 +359,12 @@ func cmdConcStress(args []string) {
 	wg.Wait()
 	rec := NewRecorder()
 	type cev struct {
-		K    string `json:"k"`
-		G    int    `json:"g"`
-		Seq  int    `json:"seq"`
-		Op   string `json:"op"`
-		Res  string `json:"res"`
-		Ref  string `json:"ref"`
+		K   string `json:"k"`
+		G   int    `json:"g"`
+		Seq int    `json:"seq"`
+		Op  string `json:"op"`
+		Res string `json:"res"`
+		Ref string `json:"ref"`
 	}
 	for g := range progs {
 		for i, o := range progs[g] {
